@@ -363,6 +363,8 @@ def apply_fn(fs, item_text, unit_id, rewrites_log, out, where, canary=False, len
     else:
         if fs.loops or fs.anchors:
             raise LostAnchor("%s: %s has no body but contract has loop/anchor sections" % (unit_id, fs.name))
+    if getattr(fs, "hides", None) and body_open is not None and not fs.bodyless:
+        ins.append((toks[body_open].end, 1, "\n " + " ".join("hide(%s);" % h for h in fs.hides) + "\n", "hide", [], None))
     if canary and body_open is not None and not fs.bodyless:
         ins.append((toks[body_open].end, 5, "\n proof { assert(false); } \n", "canary.body", ["canary"], None))
         isolated = not any("loop_isolation(false)" in a for a in fs.attrs)
@@ -676,6 +678,9 @@ def generate(vc_path, out_dir, canary=False, lenient=False):
                     fs.subs.append((m.group(1), m.group(2).replace("\\/", "/"), o.get("why", "")))
                 elif s.name == "private":
                     fs.subs.append((r"^(\s*)pub(\([a-z]+\))?\s+fn\b", r"\1fn", "visibility only: contracts of this function mention private fields/spec functions"))
+                elif s.name == "hide":
+                    # spec functions whose bodies are hidden inside this function (Verus wants `hide` first in the body)
+                    fs.hides = getattr(fs, "hides", []) + s.arg.split()
                 elif s.name == "bodyless":
                     fs.bodyless = True
                 elif s.name == "unclaimed":
